@@ -49,13 +49,17 @@ func leafVals(k Kind, thorough bool) []any {
 	}
 	switch k {
 	case KInt, KInt64:
-		return i64(0, 1, 5, -1, 127, 128, -128, -129, 255, 256, 32768, 1<<31-1, 1<<31, -1<<31, 1<<63-1, -1<<63)
+		return i64(0, 1, 5, -1, 127, 128, -128, -129, 255, 256, -256, -257, 32767, 32768, -32768, -32769, -8388608, 1<<31-1, 1<<31, -1<<31, -1<<31-1, 1<<63-1, -1<<63)
 	case KInt32:
 		return i64(0, 1, 5, -1, 127, 128, -128, -129, 256, 1<<31-1, -1<<31)
 	case KEnum:
 		return i64(0, 1, -1, 128, 1<<31-1)
 	case KBig:
-		return []any{bi("0"), bi("1"), bi("-1"), bi("128"), bi("-129"), bi("9223372036854775808"), bi("18446744073709551616"), bi("-18446744073709551616")}
+		// every byte-length boundary on both sides of zero: +-2^(8k-1) and their neighbours
+		return []any{bi("0"), bi("1"), bi("-1"), bi("127"), bi("128"), bi("-127"), bi("-128"), bi("-129"), bi("255"), bi("256"), bi("-256"), bi("-257"),
+			bi("32767"), bi("32768"), bi("-32768"), bi("-32769"), bi("-8388608"), bi("-8388609"), bi("-2147483648"),
+			bi("9223372036854775807"), bi("9223372036854775808"), bi("-9223372036854775808"), bi("-9223372036854775809"),
+			bi("18446744073709551616"), bi("-18446744073709551616"), bi("-170141183460469231731687303715884105728")}
 	case KBool:
 		return []any{false, true}
 	case KFlag:
@@ -75,7 +79,7 @@ func leafVals(k Kind, thorough bool) []any {
 	case KTime:
 		return []any{utc(2020, 1, 2, 3, 4, 5), utc(1950, 1, 1, 0, 0, 0), utc(2049, 12, 31, 23, 59, 59), utc(2050, 1, 1, 0, 0, 0),
 			utc(1949, 12, 31, 23, 59, 59), time.Date(2020, 6, 1, 12, 0, 0, 0, time.FixedZone("", 3600)),
-			time.Date(2020, 6, 1, 12, 0, 0, 0, time.FixedZone("", -(5*3600 + 1800))), utc(9999, 12, 31, 23, 59, 59)}
+			time.Date(2020, 6, 1, 12, 0, 0, 0, time.FixedZone("", -(5*3600+1800))), utc(9999, 12, 31, 23, 59, 59)}
 	case KRaw:
 		return []any{rawV{Class: 0, Tag: 5}, rawV{Class: 0, Tag: 2, Bytes: []byte{1}}, rawV{Class: 2, Tag: 0, Compound: true, Bytes: []byte{2, 1, 7}},
 			rawV{Class: 0, Tag: 31, Bytes: []byte{9}}, rawV{Class: 1, Tag: 200, Bytes: []byte{}}, rawV{Class: 3, Tag: 3, Bytes: []byte{0xff}},
